@@ -317,7 +317,30 @@ func c06RunStream(v *c06Vector, data []byte, unitLen int, label string, strict b
 		}()
 		cs := NewConnSniffer(conn, c06Timeout)
 		defer func() { _ = cs.Close() }()
-		d, err := cs.SniffTcp()
+		// (a sniffer that never comes back must not hang the check: past 20 timeouts the stream is torn down under it)
+		type sniffRes struct {
+			d   string
+			err error
+		}
+		done := make(chan sniffRes, 1)
+		go func() {
+			defer func() {
+				if r := recover(); r != nil {
+					done <- sniffRes{"", fmt.Errorf("PANIC: %v", r)}
+				}
+			}()
+			d, err := cs.SniffTcp()
+			done <- sniffRes{d, err}
+		}()
+		var sr sniffRes
+		select {
+		case sr = <-done:
+		case <-time.After(20 * c06Timeout):
+			res.Failf(key+"|never", label, "%s cuts %v: sniffing is still waiting %v after it started, the sniffing timeout is %v", label, cutText, time.Since(start), c06Timeout)
+			_ = conn.Close()
+			sr = <-done
+		}
+		d, err := sr.d, sr.err
 		class, name = c06Classify(d, err)
 		elapsed := time.Since(start)
 		res.Eval(1)
